@@ -717,6 +717,12 @@ def run_execution(case: dict, *, max_invocations: int | None = None, hooks: dict
     if line_mods:
         D.enable_line_mode(line_mods)
     ext = {e["path"]: e for e in plan.get("external", ())}
+    if case.get("ext_default"):
+        class _D(dict):
+            def get(self, k, d=None):
+                return super().get(k) or {**_EXT_DEFAULT, **case["ext_default"]}
+
+        ext = _D(ext)
     delivered_ext: set = set()
     consecutive_raises = 0
     orig_cc = sdk_state.ExecutionState.create_checkpoint
@@ -862,8 +868,11 @@ def _brief_ops(b: Backend):
     return [(o.get("_path"), o["Type"], o["Status"]) for o in b.ops.values()][:20]
 
 
+_EXT_DEFAULT = {"outcome": "success", "payload": "ext-result", "after_pending": 0}
+
+
 def _default_ext(op):
-    return {"outcome": "success", "payload": "ext-result", "after_pending": 0}
+    return dict(_EXT_DEFAULT)
 
 
 def _deliver(backend, op, e):
